@@ -38,7 +38,13 @@ OPS = [('OP_LT', '<'), ('OP_EQ', '='), ('OP_GT', '>'), ('OP_LE', '<='),
 
 POOL = (
     [['n', v] for v in (-1000000, -2, -1.5, -1, 0, 0.0, 0.5, 1, 1.0, 2, 10,
-                        43831, 43831.0, 44000, 1e300)] +
+                        43831, 43831.0, 44000, 1e300,
+                        # neighbours that no double can tell apart, and the
+                        # ends of the range
+                        9007199254740992, 9007199254740993,
+                        9007199254740992.0, -9007199254740993, 5e-324,
+                        -5e-324, 1.7976931348623157e308, -1e300,
+                        0.1 + 0.2, 0.3)] +
     [['d', s] for s in (61, 43831, 44000)] +
     [['s', v] for v in ('', '1', '-1', '1e3', '10', '2', 'true', 'TRUE',
                         'False', 'a', 'A', 'ab', 'aB', 'Ab ', 'a b', 'b',
@@ -59,7 +65,9 @@ def _plain(s):
 def key(v):
     t = v[0]
     if t in ('n', 'd'):
-        return (0, float(v[1]))
+        # exact: Python compares an int with a float by value, without
+        # rounding the int to a double first
+        return (0, v[1])
     if t == 's':
         return (1, v[1].upper())
     if t == 'b':
